@@ -62,7 +62,9 @@ U_ANGLE = Unit(P + '/Angle.angle_deg', ['Angle.angle_deg'], t_angle, SCH,
 def grid_slice(eng):
     f = eng.get_fnode('Mininec.compute_near_field')
     s1 = find_stmt(f, lambda n: isinstance(n, ast.Assign) and ast.unparse(n.targets[0]) == 'self.nf_param')
-    s2 = find_stmt(f, lambda n: isinstance(n, ast.Assign) and ast.unparse(n.targets[0]) == 'r')
+    # the list of axis arrays: the list comprehension over the (reversed) parameter rows, whatever it is called
+    s2 = find_stmt(f, lambda n: isinstance(n, ast.Assign) and isinstance(n.value, ast.ListComp)
+                   and 'nf_param' in ast.unparse(n.value) and isinstance(n.targets[0], ast.Name))
     return s1, s2
 
 
@@ -86,7 +88,7 @@ def t_grid(eng):
     finally:
         eng.frames.pop()
     eng.cover('grid')
-    r = env['r']
+    r = env[s2.targets[0].id]
     items = eng.concrete_items(r)
     ok = items is not None and len(items) == 3 and all(isinstance(x, SArr) and x.length is not None for x in items)
     eng.oblige(n + 'three-axis-arrays-z-y-x', ok)
@@ -106,7 +108,7 @@ class _ArangeStop(ast.NodeTransformer):
     """back to np.arange(s, s + (n-1)*i + 1e-9, i) (loses a point for negative steps)"""
 
     def visit_Assign(self, node):
-        if ast.unparse(node.targets[0]) == 'r' and isinstance(node.value, ast.ListComp):
+        if isinstance(node.value, ast.ListComp) and 'nf_param' in ast.unparse(node.value):
             node.value.elt = ast.parse('np.arange(s, s + (n - 1) * i + 1e-9, i)', mode='eval').body
         return node
 
